@@ -259,7 +259,9 @@ func (mw *msgWriter) writePreformattedGenHeader(msg *Msg) {
 func (mw *msgWriter) startMP(mimeType MIMEType, boundary string) string {
 	multiPartWriter := multipart.NewWriter(mw)
 	if boundary != "" {
-		mw.err = multiPartWriter.SetBoundary(boundary)
+		if err := multiPartWriter.SetBoundary(boundary); err != nil && mw.err == nil {
+			mw.err = err
+		}
 	}
 
 	contentType := fmt.Sprintf("multipart/%s;\r\n boundary=%s", mimeType,
@@ -282,7 +284,9 @@ func (mw *msgWriter) startMP(mimeType MIMEType, boundary string) string {
 // It decreases the depth level of multipart nesting.
 func (mw *msgWriter) stopMP() {
 	if mw.depth > 0 {
-		mw.err = mw.multiPartWriter[mw.depth-1].Close()
+		if err := mw.multiPartWriter[mw.depth-1].Close(); err != nil && mw.err == nil {
+			mw.err = err
+		}
 		mw.depth--
 	}
 }
@@ -387,7 +391,11 @@ func (mw *msgWriter) addFiles(files []*File, isAttachment bool) {
 // Parameters:
 //   - header: A map containing the header fields and their corresponding values for the new part.
 func (mw *msgWriter) newPart(header map[string][]string) {
-	mw.partWriter, mw.err = mw.multiPartWriter[mw.depth-1].CreatePart(header)
+	partWriter, err := mw.multiPartWriter[mw.depth-1].CreatePart(header)
+	if err != nil && mw.err == nil {
+		mw.err = err
+	}
+	mw.partWriter = partWriter
 }
 
 // writePart writes the corresponding part to the Msg body.
@@ -517,6 +525,10 @@ func (mw *msgWriter) writeBody(writeFunc func(io.Writer) (int64, error), encodin
 	if mw.depth > 0 {
 		writer = mw.partWriter
 	}
+	if writer == nil {
+		// the part could not be created, mw.err holds the reason
+		return
+	}
 	writeBuffer := bytes.Buffer{}
 	lineBreaker := base64LineBreaker{}
 	lineBreaker.out = &writeBuffer
@@ -540,7 +552,7 @@ func (mw *msgWriter) writeBody(writeFunc func(io.Writer) (int64, error), encodin
 		}
 		return
 	default:
-		encodedWriter = quotedprintable.NewWriter(writer)
+		encodedWriter = quotedprintable.NewWriter(&writeBuffer)
 	}
 
 	_, err = writeFunc(encodedWriter)
